@@ -387,8 +387,88 @@ may garbage-collect), nor after a recursive dereference — of a node, or of eve
 container — that may have freed it; a container is not handed on after its references were given
 back, nor with a borrowed element that was left unprotected -/
 theorem refTraces_noFloatingUse :
-    (Gen.cRefTraces.all fun m => m.role != .plain || m.paths.all (pathNoFloat (localsOf m.backend) m)) = true := by
+    (Gen.cRefTraces.all fun m => m.role != .plain || m.paths.all fun p =>
+      p.exceptional || pathNoFloat (localsOf m.backend) m p) = true := by
   decide +kernel
+
+/-! #### exceptions raised inside callees -/
+
+/-- the exit is one of the reviewed ones: same function, same site, and the function still owns
+exactly what the review recorded -/
+def exitLeakKnown (m : CMethod) (p : CPath) : Bool :=
+  knownExceptionLeaks.any fun k => k.backend == m.backend && k.fn == m.name && k.site == p.exitSite &&
+    some k.held == exitSummary (localsOf m.backend) m p
+
+/-- **C19 (references, exceptional exits).**  Every call in a followed function that may raise a
+Python exception — anything but a C function (declared `extern` / in the `.pxd` / cimported from
+libc or `cpython.mem`) and the module's own `cdef` functions that cannot raise; also a subscript of
+a Python object and the run-time type test of a local declared `g: Function` — gives an exit
+`raiseIn callee#k line` through the enclosing `finally` blocks and the `except` handlers that may
+match.  On every such exit of every ordinary function the references taken so far and not yet given
+back, wrapped, or parked in a container that a `finally` releases are balanced, exactly as on a
+`return` — EXCEPT on the exits listed in `knownExceptionLeaks` (DD/CWrapReviewed.lean), which are
+identified by function, site and what is still owned there (`exitSummary`), so that a new call
+between a `ref` and its `deref`, or a new reference held across an old call, is refused.
+The functions with a role (`wrap`, `init`, `__dealloc__`, `incref`, `decref`) are covered by
+`refTraces_balanced`: an exceptional exit counts as a raising path (takes nothing, gives nothing
+back).  READ AGAINST THE STATEMENT OF C19 the listed exits are paths on which a temporary reference
+is not released: one of them is reachable with a wrong argument (`LeakReach.userError`:
+`cudd_zdd._c_compose` through `ZDD.let`), the others need a broken internal invariant or a
+`MemoryError` (`exceptionLeaks_reachable`). -/
+theorem refTraces_exceptionSafe :
+    (Gen.cRefTraces.all fun m => m.role != .plain || m.paths.all fun p =>
+      !p.exceptional || pathBalanced (localsOf m.backend) m p || exitLeakKnown m p) = true := by
+  decide +kernel
+
+/-- every reviewed exit is still there (the observation is about the CURRENT source: when a leak is
+repaired this fails until the entry is removed) -/
+theorem exceptionLeaks_present :
+    (knownExceptionLeaks.all fun k => Gen.cRefTraces.any fun m =>
+      m.backend == k.backend && m.name == k.fn && m.role == .plain && m.paths.any fun p =>
+        p.exceptional && p.exitSite == k.site && !pathBalanced (localsOf m.backend) m p &&
+        exitSummary (localsOf m.backend) m p == some k.held) = true := by
+  decide +kernel
+
+/-- the reviewed exits that a caller can reach with a wrong argument: `_c_compose` (cudd_zdd.pyx),
+at the type test of `g = dvars[var]` (`g: Function`), holding the references parked in `vector`
+and `vector` itself -/
+theorem exceptionLeaks_reachable :
+    (knownExceptionLeaks.filter (·.reach == .userError)).map (fun k => (k.backend, k.fn, k.site)) =
+      [(.cuddZdd, "_c_compose", "typetest#1")] := by decide
+
+/-- the exits are there: several hundred exceptional paths, and the functions whose discipline hinges
+on a `try … finally` have exits INSIDE the `try` that run the `finally` (`free` after `raiseIn` is
+impossible: the exit is the last event; so: a path with `free` that ends in `raiseIn`) -/
+theorem exceptionalExits_covered :
+    ((Gen.cRefTraces.map fun m => (m.paths.filter CPath.exceptional).length).sum ≥ 300) = true ∧
+    (["_c_compose", "BDD._multi_compose", "BDD._swap"].all fun f => Gen.cRefTraces.any fun m =>
+      m.name == f && m.paths.any fun p => p.exceptional &&
+        p.events.any fun e => match e with | .free .. => true | _ => false) = true := by
+  decide +kernel
+
+/-- where a path relies on "a handle returned by `self.var(…)` keeps no node alive that the manager
+does not keep alive anyway" (`permanentHandleCalls`, used by the `handleDrop` rule): in that back
+end `BDD.var` is followed, returns a handle on every path that does not raise, and wraps nothing
+but the result of a `permanent` C call (`Cudd_bddIthVar`) -/
+def usesPermanentHandle (b : Backend) : Bool :=
+  Gen.cRefTraces.any fun m => m.backend == b && m.paths.any fun p => p.events.any fun e =>
+    match e with | .handleDrop _ via => permanentHandleCalls.contains via | _ => false
+
+def wrapsOnlyPermanent (m : CMethod) : Bool :=
+  (m.paths.any fun p => p.events.any fun e => match e with | .wrap _ => true | _ => false) &&
+  m.paths.all fun p => p.events.all fun e =>
+    match e with
+    | .wrap x => p.events.any fun e' =>
+        match e' with
+        | .produce y fn _ => y == x && producerKind fn == some .permanent
+        | _ => false
+    | _ => true
+
+theorem permanentHandles_ok :
+    ([Backend.cudd, .cuddZdd, .sylvan, .buddy].all fun b => !usesPermanentHandle b ||
+      Gen.cRefTraces.any fun m => m.backend == b && m.name == "BDD.var" && m.role == .plain &&
+        wrapsOnlyPermanent m) = true ∧
+    usesPermanentHandle .cudd = true := by decide +kernel
 
 /-- every C array of node pointers that a path allocates is freed on that path, except on the
 paths listed in `knownArrayLeaks` by function and exception (DD/CWrapReviewed.lean:
@@ -534,18 +614,18 @@ example : runPath [] false false []
 
 -- the shape of `_c_compose`: fill the array, call, protect the result, release the array, free it
 example : runPath ["_compose_root"] true false []
-    [.alloc 0 "PyMem_Malloc" "n", .param 1 "g.node", .ref 1 "cuddRef", .store 0 1,
+    [.alloc 0 "PyMem_Malloc" "n", .fillBegin 0, .param 1 "g.node", .ref 1 "cuddRef", .store 0 1, .fillEnd 0,
      .param 2 "u.node", .passC 0 "_compose_root", .produce 3 "_compose_root" [2],
      .ref 3 "cuddRef", .derefAll 0 "Cudd_RecursiveDerefZdd" "n", .deref 3 "cuddDeref",
      .free 0 "PyMem_Free", .wrap 3, .retHandle] = .ok := by decide
 -- seeded C19e: without `cuddRef(r)` … `cuddDeref(r)` the result floats while the vector is released
 -- (balanced, but refused by the floating-node rule: the result may be one of the released nodes)
 example : runPath ["_compose_root"] false false []
-    [.alloc 0 "PyMem_Malloc" "n", .param 1 "g.node", .ref 1 "cuddRef", .store 0 1,
+    [.alloc 0 "PyMem_Malloc" "n", .fillBegin 0, .param 1 "g.node", .ref 1 "cuddRef", .store 0 1, .fillEnd 0,
      .param 2 "u.node", .passC 0 "_compose_root", .produce 3 "_compose_root" [2],
      .derefAll 0 "Cudd_RecursiveDerefZdd" "n", .free 0 "PyMem_Free", .wrap 3, .retHandle] = .ok := by decide
 example : runPath ["_compose_root"] true false []
-    [.alloc 0 "PyMem_Malloc" "n", .param 1 "g.node", .ref 1 "cuddRef", .store 0 1,
+    [.alloc 0 "PyMem_Malloc" "n", .fillBegin 0, .param 1 "g.node", .ref 1 "cuddRef", .store 0 1, .fillEnd 0,
      .param 2 "u.node", .passC 0 "_compose_root", .produce 3 "_compose_root" [2],
      .derefAll 0 "Cudd_RecursiveDerefZdd" "n", .free 0 "PyMem_Free", .wrap 3, .retHandle]
     = .bad "unprotected node used after a node-creating call or a recursive dereference" 3 := by decide
